@@ -248,7 +248,7 @@ func c20Run(c c20Case, st *fw.Stats) []fw.Viol {
 	case "wraph":
 		// chains of N handlers: every subset of positions is a wrapped generic http.Handler / HandlerFunc
 		for mask := 0; mask < 1<<c.N; mask++ {
-			for _, style := range []string{"handler", "func"} {
+			for _, style := range []string{"handler", "func", "WrapH", "HTTPHandler", "WrapHF", "HTTPHandlerFunc"} {
 				st.Evals++
 				st.Nontrivial++
 				var trace []string
@@ -262,9 +262,18 @@ func c20Run(c c20Case, st *fw.Stats) []fw.Viol {
 							trace = append(trace, fmt.Sprintf("generic%d", i))
 							_, _ = w.Write([]byte(fmt.Sprintf("g%d;", i)))
 						}
-						if style == "handler" {
+						switch style {
+						case "handler":
 							hs[i] = rux.WrapHTTPHandler(http.HandlerFunc(gen))
-						} else {
+						case "WrapH":
+							hs[i] = rux.WrapH(http.HandlerFunc(gen))
+						case "HTTPHandler":
+							hs[i] = rux.HTTPHandler(http.HandlerFunc(gen))
+						case "WrapHF":
+							hs[i] = rux.WrapHF(gen)
+						case "HTTPHandlerFunc":
+							hs[i] = rux.HTTPHandlerFunc(gen)
+						default:
 							hs[i] = rux.WrapHTTPHandlerFunc(gen)
 						}
 						want = append(want, fmt.Sprintf("generic%d", i))
@@ -308,7 +317,7 @@ var c20Spec = fw.Spec[c20Case]{
 	ID:    "C20",
 	Level: "model_checking",
 	Rule: "complete decision tables: HTTPBasicAuth: 6 account maps (nil, empty, one user, empty password, two users, password containing ':') x 27 Authorization values (incl. the full square of known / unknown / empty users x matching / other / empty passwords) (absent, valid, wrong password, unknown user, empty user / password, no colon, bare scheme, bad base64, scheme in other case, other scheme, double space, padding, leading space, case-changed user, empty) x 3 placements (route, global, group middleware); " +
-		"HTTPMethodOverrideHandler: 10 request methods x 13 override values x 6 carriers (none, header, query, body, header+query agreeing, header+body disagreeing - the last for totality only); WrapHTTPHandlers: lists of 1..4 distinguishable wrappers (+ the override gate in the list); WrapHTTPHandler / WrapHTTPHandlerFunc at every subset of positions of chains n<=4; every row is non-trivial",
+		"HTTPMethodOverrideHandler: 10 request methods x 13 override values x 6 carriers (none, header, query, body, header+query agreeing, header+body disagreeing - the last for totality only); WrapHTTPHandlers: lists of 1..4 distinguishable wrappers (+ the override gate in the list); WrapHTTPHandler / WrapHTTPHandlerFunc and their four aliases at every subset of positions of chains n<=4; every row is non-trivial",
 	Assume: []string{"'well-formed Basic credentials' = scheme Basic (any case), one space, valid base64, a colon in the decoded text", "when both override carriers disagree the statement does not say which wins; those rows are executed but not asserted"},
 	Bounds: func(tier string) map[string]any {
 		return map[string]any{"accounts": len(c20Accounts), "authorization_values": len(c20Auth), "wrapper_lists": "1..4", "chains": "n<=4, all subsets of wrapped positions"}
